@@ -27,6 +27,9 @@ func hpackEveryCut(run *Run, ss *shardSet, n int) {
 	r := run.R
 	static := mhpack.VerifStaticTable()
 	for s := 0; s < n; s++ {
+		if abortRun {
+			return
+		}
 		g := &genRepr{max: 4096, allowed: 4096}
 		pre, _ := g.block(r, 1+r.Intn(4), static) // a first block fills the table
 		blk, want := g.block(r, 1+r.Intn(5), static)
